@@ -46,6 +46,8 @@ def corpus_G(prop):
 
 def corpus_D():
     """programs (with instance-derived universes) of the demonstrations of the seeded changes"""
+    if os.environ.get("VF_NO_D"):  # development switch: measure what the other corpora catch on their own
+        return []
     return [dict(e, outs=None) for e in load("D") if e.get("prop") not in ("C18", "C19")]
 
 
@@ -89,6 +91,9 @@ def tasks_single(prop, tier, seed):
     tr = cfg["trait"]
     tasks = []
     entries = corpus_T([tr]) + corpus_G(prop) + corpus_D()
+    from . import variants
+
+    entries = entries + variants.variant_corpus(entries, 10 if tier == "quick" else 40, 350 if tier == "quick" else 4000, salt=prop)
     if tier == "thorough":
         entries += [e for e in corpus_T() if e["trait"] not in (tr, "ast", "global")]
     for e in entries:
@@ -112,6 +117,9 @@ def tasks_single(prop, tier, seed):
 def tasks_C05(tier, seed):
     tasks = []
     entries = corpus_T(["none"]) + corpus_G("C05") + corpus_D()
+    from . import variants
+
+    entries = entries + variants.variant_corpus(entries, 8 if tier == "quick" else 40, 150 if tier == "quick" else 2000, salt="C05")
     entries += [e for e in corpus_T() if e["trait"] not in ("none", "global")] if tier == "thorough" else [e for e in corpus_T(["regression", "ast", "dependency", "math", "minmax_chains", "inline"])]
     for e in entries:
         tasks.append(base_task(dict(e, out=[]), "none", "voc", tier, one_to_one=True, open_all=True))
